@@ -1279,46 +1279,6 @@ theorem mem_toProtoL : (fs : Fields) → ∀ f ∈ toProtoL fs, ∃ g ∈ fs, f 
         exact ⟨g, by simp [hg], e⟩
 
 mutual
-theorem wf_toProto : (t : Ty) → t.wf → (toProto t).wf
-  | .bool | .int _ | .uint _ | .flat _ | .f32 | .f64 | .str _ | .bytes | .time _ => by
-      intro h; simpa [toProto] using h
-  | .ptr t => by
-      intro h; simp only [Ty.wf] at h
-      simp only [toProto, Ty.wf, isMap_toProto]; exact ⟨wf_toProto t h.1, h.2⟩
-  | .vslice t => by
-      intro h; simp only [Ty.wf] at h
-      simp only [toProto, Ty.wf, isMap_toProto]
-      exact ⟨wf_toProto t h.1, by rw [wt_toProto t (by rw [h.2.1]; decide)]; exact h.2.1, h.2.2⟩
-  | .fslice t => by
-      intro h; simp only [Ty.wf] at h
-      rcases h with rfl | rfl <;> simp [toProto, Ty.wf]
-  | .lslice t => by
-      intro h; simp only [Ty.wf] at h
-      simp only [toProto, Ty.wf, isMap_toProto]
-      exact ⟨wf_toProto t h.1, by rw [wt_toProto t (by rw [h.2.1]; decide)]; exact h.2.1, h.2.2⟩
-  | .pslice t => by
-      intro h; simp only [Ty.wf] at h
-      simp only [toProto, Ty.wf, isMap_toProto]
-      exact ⟨wf_toProto t h.1, by rw [wt_toProto t (by rw [h.2.1]; decide)]; exact h.2.1, h.2.2⟩
-  | .struct n fs => by
-      intro h; simp only [Ty.wf] at h
-      simp only [toProto, Ty.wf, map_fst_toProtoL]
-      refine ⟨h.1, ?_, wfL_toProto fs h.2.2⟩
-      intro f hf
-      obtain ⟨g, hg, rfl⟩ := mem_toProtoL fs f hf
-      exact h.2.1 g hg
-  | .map k v p => by
-      intro h; simp only [Ty.wf] at h
-      simp only [toProto, Ty.wf, isMap_toProto]
-      exact ⟨wf_toProto k h.1, wf_toProto v h.2.1, h.2.2.1, h.2.2.2⟩
-theorem wfL_toProto : (fs : Fields) → fieldsWf fs → fieldsWf (toProtoL fs)
-  | [] => by intro _; simp [toProtoL, fieldsWf]
-  | (_, _, t) :: r => by
-      intro h; simp only [fieldsWf] at h
-      simp only [toProtoL, fieldsWf]; exact ⟨wf_toProto t h.1, wfL_toProto r h.2⟩
-end
-
-mutual
 theorem hasTy_toProto : (t : Ty) → ∀ v, t.hasTy v → (toProto t).hasTy v
   | .bool, v, h | .int _, v, h | .uint _, v, h | .flat _, v, h | .f32, v, h | .f64, v, h
   | .str _, v, h | .bytes, v, h | .time _, v, h => by simpa [toProto] using h
@@ -1417,6 +1377,75 @@ theorem rtShapeL_of_toProto : (fs : Fields) → fieldsRtShape (toProtoL fs) → 
       simp only [fieldsRtShape]; exact ⟨rtShape_of_toProto t true h.1, rtShapeL_of_toProto r h.2⟩
 end
 
+/-- a value-position codec of a round-trip shape is not (a pointer to) the
+repeated form. -/
+theorem isProtoSlice_of_shape : (t : Ty) → Ty.rtShape false t → t.isProtoSlice = false
+  | .ptr t => by
+      intro h; simp only [Ty.rtShape] at h
+      simp only [Ty.isProtoSlice]; exact isProtoSlice_of_shape t h.2
+  | .pslice _ => by intro h; simp [Ty.rtShape] at h
+  | .bool | .int _ | .uint _ | .flat _ | .f32 | .f64 | .str _ | .bytes | .time _ | .vslice _ | .fslice _
+  | .lslice _ | .struct _ _ | .map _ _ _ => by intro _; simp [Ty.isProtoSlice]
+
+mutual
+/-- `toProto` keeps a codec tree Accepted wherever the result has a round-trip
+shape. (Without the shape the statement fails since the builder rejects the
+repeated form as a map key or value: `map[K][]string` under
+`ProtoCompatibleArrays` has no codec, and `toProto` of its default-mode tree is
+not Accepted.) -/
+theorem wf_toProto : (t : Ty) → ∀ b, t.wf → Ty.rtShape b (toProto t) → (toProto t).wf
+  | .bool, _ | .int _, _ | .uint _, _ | .flat _, _ | .f32, _ | .f64, _ | .str _, _ | .bytes, _
+  | .time _, _ => by
+      intro h _; simpa [toProto] using h
+  | .ptr t, b => by
+      intro h hs; simp only [Ty.wf] at h
+      simp only [toProto, Ty.rtShape] at hs
+      simp only [toProto, Ty.wf, isMap_toProto]; exact ⟨wf_toProto t false h.1 hs.2, h.2⟩
+  | .vslice t, b => by
+      intro h hs; simp only [Ty.wf] at h
+      simp only [toProto, Ty.rtShape] at hs
+      simp only [toProto, Ty.wf, isMap_toProto]
+      exact ⟨wf_toProto t false h.1 hs, by rw [wt_toProto t (by rw [h.2.1]; decide)]; exact h.2.1, h.2.2⟩
+  | .fslice t, b => by
+      intro h _; simp only [Ty.wf] at h
+      rcases h with rfl | rfl <;> simp [toProto, Ty.wf]
+  | .lslice t, b => by
+      intro h hs; simp only [Ty.wf] at h
+      simp only [toProto, Ty.rtShape] at hs
+      simp only [toProto, Ty.wf, isMap_toProto]
+      exact ⟨wf_toProto t false h.1 hs.2, by rw [wt_toProto t (by rw [h.2.1]; decide)]; exact h.2.1,
+        h.2.2.1, isProtoSlice_of_shape _ hs.2⟩
+  | .pslice t, b => by
+      intro h hs; simp only [Ty.wf] at h
+      simp only [toProto, Ty.rtShape] at hs
+      simp only [toProto, Ty.wf, isMap_toProto]
+      exact ⟨wf_toProto t false h.1 hs.2, by rw [wt_toProto t (by rw [h.2.1]; decide)]; exact h.2.1,
+        h.2.2.1, isProtoSlice_of_shape _ hs.2⟩
+  | .struct n fs, b => by
+      intro h hs; simp only [Ty.wf] at h
+      simp only [toProto, Ty.rtShape] at hs
+      simp only [toProto, Ty.wf, map_fst_toProtoL]
+      refine ⟨h.1, ?_, wfL_toProto fs h.2.2 hs⟩
+      intro f hf
+      obtain ⟨g, hg, rfl⟩ := mem_toProtoL fs f hf
+      exact h.2.1 g hg
+  | .map k v p, b => by
+      intro h hs; simp only [Ty.wf] at h
+      simp only [toProto, Ty.rtShape] at hs
+      have hk := keySafe_of_toProto k hs.2.1
+      simp only [toProto, Ty.wf, isMap_toProto]
+      refine ⟨?_, wf_toProto v false h.2.1 hs.2.2, h.2.2.1, h.2.2.2.1,
+        isProtoSlice_of_shape _ hs.2.2, ?_⟩
+      · rw [hk.2]; exact h.1
+      · rw [hk.2]; exact h.2.2.2.2.2
+theorem wfL_toProto : (fs : Fields) → fieldsWf fs → fieldsRtShape (toProtoL fs) → fieldsWf (toProtoL fs)
+  | [] => by intro _ _; simp [toProtoL, fieldsWf]
+  | (_, _, t) :: r => by
+      intro h hs; simp only [fieldsWf] at h
+      simp only [toProtoL, fieldsRtShape] at hs
+      simp only [toProtoL, fieldsWf]; exact ⟨wf_toProto t true h.1 hs.1, wfL_toProto r h.2 hs.2⟩
+end
+
 /-- in value position of the proto tree the codec is not a (pointer to a)
 length-delimited slice, so the wire type is unchanged. -/
 theorem wt_toProto_of_shape : (t : Ty) → Ty.rtShape false (toProto t) → t.wf → (toProto t).wt = t.wt
@@ -1486,7 +1515,7 @@ theorem xField_of_val (t : Ty) (hwf : t.wf) (hs : Ty.rtShape false (toProto t)) 
   rw [hwt] at hsz hf ⊢
   have hv := ne_ptr_none_of_not_omit v hom
   have hv2 := ne_map_none_of_not_omit v hom
-  have hwf' := wf_toProto t hwf
+  have hwf' := wf_toProto t false hwf hs
   have hty' := hasTy_toProto t v hty
   have hpres := present_of_shape (toProto t) hs v hty' hv
   have htag := appendTag_ne_nil t.wt i
@@ -1591,7 +1620,7 @@ theorem xField_lslice (u : Ty) (hwf : (Ty.lslice u).wf) (hs : Ty.rtShape false (
   intro i v hi hty hom hsz rd put hrd fuel rest off hf
   cases v with
   | slice vs =>
-    have hwf' := wf_toProto _ hwf
+    have hwf' := wf_toProto _ true hwf (by simp only [toProto, Ty.rtShape]; exact ⟨trivial, hs⟩)
     have hty' := hasTy_toProto _ _ hty
     simp only [toProto] at hwf' hty' hsz hf ⊢
     have hE := pslice_frames (toProto u) vs (appendTag (Ty.pslice (toProto u)).wt i) hwf' hty'
@@ -1603,7 +1632,7 @@ theorem xField_lslice (u : Ty) (hwf : (Ty.lslice u).wf) (hs : Ty.rtShape false (
     have := x_rep_loop (.lslice u) (toProto u) (fun b => u.read .len b u.zero) (elemNorm u)
       (fun B done e n h => by simp only [Ty.read, ↓reduceIte, h])
       i hi rd put hrd vs [] fuel rest off
-      (fun x hx hl => x_elem u hwf.1 hs hwf.2.1 hwf.2.2 ih x (hty x hx) hl) hsz hf
+      (fun x hx hl => x_elem u hwf.1 hs hwf.2.1 hwf.2.2.1 ih x (hty x hx) hl) hsz hf
     simp only [Ty.zero, norm_lslice]
     simpa using this
   | _ => simp [Ty.hasTy] at hty
@@ -1613,7 +1642,7 @@ theorem xField_pslice (u : Ty) (hwf : (Ty.pslice u).wf) (hs : Ty.rtShape false (
   intro i v hi hty hom hsz rd put hrd fuel rest off hf
   cases v with
   | slice vs =>
-    have hwf' := wf_toProto _ hwf
+    have hwf' := wf_toProto _ true hwf (by simp only [toProto, Ty.rtShape]; exact ⟨trivial, hs⟩)
     have hty' := hasTy_toProto _ _ hty
     simp only [toProto] at hwf' hty' hsz hf ⊢
     have hE := pslice_frames (toProto u) vs (appendTag (Ty.pslice (toProto u)).wt i) hwf' hty'
@@ -1625,7 +1654,7 @@ theorem xField_pslice (u : Ty) (hwf : (Ty.pslice u).wf) (hs : Ty.rtShape false (
     have := x_rep_loop (.pslice u) (toProto u) (fun b => u.read .len b u.zero) (elemNorm u)
       (fun B done e n h => by simp only [Ty.read, h])
       i hi rd put hrd vs [] fuel rest off
-      (fun x hx hl => x_elem u hwf.1 hs hwf.2.1 hwf.2.2 ih x (hty x hx) hl) hsz hf
+      (fun x hx hl => x_elem u hwf.1 hs hwf.2.1 hwf.2.2.1 ih x (hty x hx) hl) hsz hf
     simp only [Ty.zero, norm_pslice]
     simpa using this
   | _ => simp [Ty.hasTy] at hty
@@ -1734,7 +1763,7 @@ theorem field_decode_x (t : Ty) (hwf : t.wf) (hs : Ty.rtShape false (toProto t))
   rw [hwt] at hsz ⊢
   have hv := ne_ptr_none_of_not_omit x hom
   have hv2 := ne_map_none_of_not_omit x hom
-  have hwf' := wf_toProto t hwf
+  have hwf' := wf_toProto t false hwf hs
   have hty' := hasTy_toProto t x hty
   have hpres := present_of_shape (toProto t) hs x hty' hv
   have htag := appendTag_ne_nil t.wt j
@@ -1840,7 +1869,7 @@ theorem xVal_map (k v : Ty) (hwf : (Ty.map k v false).wf) (hke : toProto k = k) 
     | none => exact absurd rfl hx
     | some es =>
       refine ⟨fun h => by simp [Ty.wt] at h, fun _ rest => ?_⟩
-      have hwf' := wf_toProto _ hwf
+      have hwf' := wf_toProto _ true hwf (by simp only [toProto, Ty.rtShape, hke]; exact ⟨fun _ => trivial, hks, hvs⟩)
       have hty' := hasTy_toProto _ _ hty
       simp only [toProto, hke] at hwf' hty' hsz ⊢
       have he := map_entries k (toProto v) es [] hwf' hty'
@@ -1924,7 +1953,7 @@ theorem xField_pmap (k v : Ty) (hwf : (Ty.map k v true).wf) (hke : toProto k = k
     cases o with
     | none => simp [Val.omit] at hom
     | some es =>
-      have hwf' := wf_toProto _ hwf
+      have hwf' := wf_toProto _ true hwf (by simp only [toProto, Ty.rtShape, hke]; exact ⟨fun _ => trivial, hks, hvs⟩)
       have hty' := hasTy_toProto _ _ hty
       simp only [toProto, hke] at hwf' hty' hsz hf ⊢
       have he := pmap_frames k (toProto v) es (appendTag (Ty.map k (toProto v) true).wt i) hwf' hty'
